@@ -372,9 +372,12 @@ class SizeEval:
 WRITE_FN_SIZES = {
     "write_packed_guid": lambda p: atom(("pgs", p)),
     "write_monster_move_spline": lambda p: atom(("fn", "monster_move_spline_size", p)),
-    "write_achievement_done": lambda p: atom(("len", p, 4)),
-    "write_addon_array": lambda p: atom(("len", p, 8)),
+    # hand-written list writers: bytes = per-element * len + constant; the numbers are *measured* by interpreting the
+    # writers (props/c01_leaf.measure_list_writers, rule leaf.writer-size of C02), this table only has to agree with them
+    "write_achievement_done": lambda p: atom(("len", p, LIST_WRITERS["write_achievement_done"][0])).add(SE(LIST_WRITERS["write_achievement_done"][1])),
+    "write_addon_array": lambda p: atom(("len", p, LIST_WRITERS["write_addon_array"][0])).add(SE(LIST_WRITERS["write_addon_array"][1])),
 }
+LIST_WRITERS = {"write_achievement_done": (8, 4), "write_addon_array": (8, 0), "write_achievement_in_progress": ("sum", 4)}
 
 
 class WriteSize:
@@ -414,6 +417,7 @@ class WriteSize:
                 if fname == "write_achievement_in_progress":
                     es = atom(("size", p + ("[]",)))
                     s.add(atom(("sum", p, es.freeze(), es.show())))
+                    s.const += LIST_WRITERS[fname][1]
                     continue
                 ty = (it.get("recv_ty") or "").replace("&", "")
                 k2 = self.struct_const(ty)
